@@ -15,7 +15,7 @@
 From Coq Require Import String NArith ZArith QArith Bool Arith List Permutation.
 From GT Require Import Base.UTree Spec.Obs Spec.CompareSpec Spec.Unrooted Model.Reroot Model.Index Model.EdgeIndex Model.Compare
      Proofs.IndexSplit Proofs.CompareBase Proofs.CompareTree Proofs.CompareMain Proofs.CompareCor
-     Proofs.CompareDomain Proofs.CompareDupfree Proofs.CompareWeighted Proofs.CompareAll Proofs.CompareIdent Proofs.CompareBridge Proofs.CompareCommon Proofs.CompareTotal.
+     Proofs.CompareDomain Proofs.CompareDupfree Proofs.CompareWeighted Proofs.CompareAll Proofs.CompareIdent Proofs.CompareBridge Proofs.CompareCommon Proofs.CompareTotal Proofs.CompareReject Proofs.CompareThreeCall.
 Import ListNotations.
 Local Close Scope Q_scope.
 
@@ -239,3 +239,61 @@ Theorem C08_compare_weighted_hm_eq :
     compare_weighted_hm tips ident t1 t2 = compare_weighted tips ident t1 t2.
 Proof. exact compare_weighted_hm_eq. Qed.
 Print Assumptions C08_compare_weighted_hm_eq.
+
+(** * the rejection clause at full strength: for ANY two well-formed trees (root of degree >= 2) the
+    record of Compare / CompareWeighted carries no error EXACTLY when the taxon MULTISETS are the
+    same (distinct names in each tree, the same names); a duplicated name in the compared tree is
+    reported in the record, in the reference it makes the call fail; CommonEdges refuses other taxa *)
+Theorem C08_compare_accepts_iff :
+  forall tips ident t1 t2,
+    wf t1 = true -> 2 <= degree t1 -> wf t2 = true -> 2 <= degree t2 ->
+    ((exists r, compare tips ident t1 t2 = Some (Ok r) /\ bs_err r = EmptyString) <->
+     (NoDup (leaves t1) /\ NoDup (leaves t2) /\ Permutation (leaves t1) (leaves t2))).
+Proof. exact compare_accepts_iff. Qed.
+Print Assumptions C08_compare_accepts_iff.
+
+Theorem C08_compare_weighted_accepts_iff :
+  forall tips ident t1 t2,
+    wf t1 = true -> 2 <= degree t1 -> wf t2 = true -> 2 <= degree t2 ->
+    ((exists r, compare_weighted tips ident t1 t2 = Some (Ok r) /\ ws_err r = EmptyString) <->
+     (NoDup (leaves t1) /\ NoDup (leaves t2) /\ Permutation (leaves t1) (leaves t2))).
+Proof. exact compare_weighted_accepts_iff. Qed.
+Print Assumptions C08_compare_weighted_accepts_iff.
+
+Theorem C08_compare_dup_reference :
+  forall tips ident t1 t2,
+    wf t1 = true -> 2 <= degree t1 -> ~ NoDup (leaves t1) -> compare tips ident t1 t2 = Some (Err dup_msg).
+Proof. exact compare_dup_reference. Qed.
+Print Assumptions C08_compare_dup_reference.
+
+Theorem C08_compare_dup_compared :
+  forall tips ident t1 t2,
+    good t1 -> wf t2 = true -> 2 <= degree t2 -> ~ NoDup (leaves t2) ->
+    exists r, compare tips ident t1 t2 = Some (Ok r) /\ bs_err r = dup_msg.
+Proof. exact compare_dup_compared. Qed.
+Print Assumptions C08_compare_dup_compared.
+
+Theorem C08_common_edges_different_taxa :
+  forall te t1 t2,
+    good t1 -> good t2 -> ~ (forall x, In x (leaves t1) <-> In x (leaves t2)) ->
+    exists m, common_edges te t1 t2 = Err m.
+Proof. exact common_edges_different_taxa. Qed.
+Print Assumptions C08_common_edges_different_taxa.
+
+Example C08_reject_examples :
+  compare false false wit_ref wit_dup = Some (Ok (mkBS 1 0 0 false dup_msg)) /\
+  compare false false wit_dup wit_ref = Some (Err dup_msg) /\
+  (exists r, compare false false wit_ref wit_other = Some (Ok r) /\ bs_err r = "Trees do not have the same tip names"%string) /\
+  (exists r, compare false false wit_ref wit_star = Some (Ok r) /\ bs_err r = EmptyString).
+Proof. exact reject_examples. Qed.
+Print Assumptions C08_reject_examples.
+
+(** * CommonEdges after the documented three-call preparation (hash codes left at zero) counts as
+    after ReinitIndexes *)
+Theorem C08_common_edges_three_call :
+  forall te t1 t2,
+    good t1 -> good t2 -> Permutation (leaves t1) (leaves t2) ->
+    common_edges_loop te (map zero_hash (rows t1)) (map zero_hash (rows t2)) 0%Z 0%Z =
+    common_edges_loop te (rows t1) (rows t2) 0%Z 0%Z.
+Proof. exact common_edges_three_call. Qed.
+Print Assumptions C08_common_edges_three_call.
